@@ -34,6 +34,8 @@ def cases(seed, tier):
     rng = np.random.default_rng([seed, 9])
     for i in range(n):
         yield {"family": FAMS[i % 8], "sub": int(rng.integers(0, 2**31))}
+    for i in range(2 if tier == "quick" else 10):
+        yield {"family": "big", "sub": int(rng.integers(0, 2**31)), "first": i == 0, "cap": 2 ** 21 + 1 if tier == "quick" else None}
 
 
 def ring(rng, n, pole_sign=None):
@@ -256,7 +258,31 @@ def _again(name, fn, args, first, wit):
     _rel("repeatable", same, "%s returns different values when called again on the same argument objects" % name, wit, (name,))
 
 
+def run_big(case):
+    """long arrays through every conversion: element for element the same as short windows of the same arrays"""
+    import esutil.coords as co
+    rng = np.random.default_rng(case["sub"])
+    n = gen.big_size(rng, cap=case.get("cap"), first=case.get("first", False))
+    lon = rng.uniform(0, 360, size=n)
+    lat = np.degrees(np.arcsin(rng.uniform(-1, 1, size=n)))
+    win = gen.windows(rng, n)
+    COL.sample({"family": "big", "n": n}, limit=3)
+    name = ["eq2gal", "gal2eq", "eq2ec", "ec2eq", "ec2gal", "gal2ec"][int(rng.integers(0, 6))]
+    probe.big_vs_windows("C09.relations", name, getattr(co, name), [lon, lat], win, kwargs={"b1950": bool(rng.integers(0, 2))})
+    probe.big_vs_windows("C09.relations", "eq2sdss", co.eq2sdss, [lon, lat], win)
+    units, stomp = str(rng.choice(["deg", "rad"])), bool(rng.integers(0, 2))
+    a_, b_ = (np.radians(lon), np.radians(lat)) if units == "rad" else (lon, lat)
+    xyz = probe.big_vs_windows("C09.relations", "eq2xyz", co.eq2xyz, [a_, b_], win, kwargs={"units": units, "stomp": stomp})
+    if xyz is not None:
+        probe.big_vs_windows("C09.relations", "xyz2eq", co.xyz2eq, [np.asarray(c) for c in xyz], win, kwargs={"units": units, "stomp": stomp})
+    probe.big_vs_windows("C09.relations", "shiftlon", co.shiftlon, [lon], win, kwargs={"shift": float(rng.uniform(-400, 400))})
+    ang = [float(x) for x in rng.uniform(-180, 180, size=3)]
+    probe.big_vs_windows("C09.relations", "rotate", lambda x, y: co.rotate(ang[0], ang[1], ang[2], x, y), [lon, lat], win)
+
+
 def run_case(case):
+    if case["family"] == "big":
+        return run_big(case)
     import esutil.coords as co
     rng = np.random.default_rng(case["sub"])
     fam = case["family"]
